@@ -97,7 +97,7 @@ package ledger
 // encoding/json and is not decided
 //@ func (*ledger.SetMetadataLogPayload).UnmarshalJSON
 //@   requires s != nil
-//@   ensures err == nil && lib("strings.ToUpper", s.TargetType) == lib("strings.ToUpper", "TRANSACTION") ==> typeis(s.TargetID, "*big.Int")
+//@   ensures err == nil && lib("strings.ToUpper", s.TargetType) == lib("strings.ToUpper", "TRANSACTION") ==> typeis(s.TargetID, "*big.Int") && as(s.TargetID, "*big.Int") != nil
 //@   property C13
 
 // package-level constant in all but name
